@@ -554,6 +554,17 @@ impl Handler {
             }
         };
 
+        #[cfg(feature = "verif-hooks")]
+        crate::verif::log_request_tx(crate::verif::RequestTx {
+            local: self.node_id,
+            remote: node_address.node_id,
+            request_id: match &request_id {
+                HandlerReqId::Internal(id) | HandlerReqId::External(id) => id.0.clone(),
+            },
+            internal: matches!(request_id, HandlerReqId::Internal(_)),
+            message_nonce: packet.header.message_nonce,
+            sessionless: initiating_session,
+        });
         let call = RequestCall::new(
             contact,
             packet.clone(),
